@@ -39,7 +39,7 @@ CHECKS = {
    "DESIGN.md §3 C20", "harness"),
  "C01": ("exploration",
    "property-based testing (proptest) of generated concurrent histories on a deterministic simulated connection (scripted transport, paused-clock runtime with seeded select! order); token-tracing oracle",
-   "1-12 operations on 1-4 cloned handles, a generated global merge order of all response PDUs, unsolicited/late PDUs, entry padding up to 300 KB, windows during which the client's socket cannot be written to, long tails of late entries, a lagging consumer with >1000 unread items, id-counter rewinds (ids of completed operations handed out again), read segmentation and scheduler seed; every operation must observe exactly the tokens the server sent under its own wire id, in order, and nobody may see an unsolicited token.",
+   "1-12 operations on 1-4 cloned handles, a generated global merge order of all response PDUs, unsolicited/late PDUs, entry padding up to 300 KB, windows during which the client's socket cannot be written to, long tails of late entries, a lagging consumer with >1000 unread items, id-counter rewinds (ids of completed operations handed out again), read segmentation and scheduler seed; every operation must observe exactly the tokens the server sent under its own wire id, in order, and nobody may see an unsolicited token. Lane premature: responses under ids that have not been issued yet arrive while the client is idle; the operations given those ids afterwards must be served normally.",
    "Trusted base: harness SIM (src/sim.rs), response model, tokio paused clock and RngSeed. Schedules are sampled, not enumerated.",
    "DESIGN.md §3 C01, §2.2", "harness"),
  "C02": ("exploration",
@@ -79,7 +79,7 @@ CHECKS = {
    "DESIGN.md §3 C04", "harness"),
  "C05": ("exploration",
    "property-based testing (proptest), model-based: the real allocator driven through hooks against a reference model from generated table states; end-to-end wave histories near the wrap point on the simulated connection; real-thread stress lane checking uniqueness",
-   "Allocator vs. reference model from arbitrary (counter, in-use) states incl. clusters at both ends of the id space; the scripted server verifies range/uniqueness of ids of outstanding requests (single operations, searches that stay open, AbandonRequests) across the MAX->1 wrap and that an outstanding operation's id stays reserved; 2-16 OS threads allocate concurrently on clones and no id may repeat.",
+   "Allocator vs. reference model from arbitrary (counter, in-use) states incl. clusters at both ends of the id space; the scripted server verifies range/uniqueness of ids of outstanding requests (single operations, searches that stay open, AbandonRequests) across the MAX->1 wrap and that an outstanding operation's id stays reserved; 2-16 OS threads allocate concurrently on clones and no id may repeat. Lane timeout-release: operations started by hand in the very instant another one's timeout fires (before the driver has run), counter positioned just below the timed-out id: outstanding ids stay reserved and unique.",
    "Trusted base: hooks verif_msgmap/verif_next_msgid; thread interleavings inside the critical section are sampled, not enumerated.",
    "DESIGN.md §3 C05", "harness"),
  "C12": ("exploration",
